@@ -527,8 +527,32 @@ def main():
     cmpops = {ast.Eq: "OpEq", ast.NotEq: "OpNe", ast.Lt: "OpLt", ast.Gt: "OpGt", ast.LtE: "OpLe", ast.GtE: "OpGe"}
     unops = {ast.Invert: "OpInvert", ast.Not: "OpNot", ast.USub: "OpNeg", ast.UAdd: "OpPos"}
     ops = []
+    # functions of the standard `operator` module (the module must be imported under that name and not rebound)
+    std_ops = {"add": "Bin OpAdd", "sub": "Bin OpSub", "mul": "Bin OpMul", "truediv": "Bin OpDiv", "mod": "Bin OpMod",
+               "xor": "Bin OpXor", "and_": "Bin OpBitAnd", "or_": "Bin OpBitOr", "lshift": "Bin OpShl", "rshift": "Bin OpShr",
+               "floordiv": "Bin OpFloorDiv", "pow": "Bin OpPow", "eq": "Bin OpEq", "ne": "Bin OpNe", "lt": "Bin OpLt",
+               "gt": "Bin OpGt", "le": "Bin OpLe", "ge": "Bin OpGe", "invert": "Un OpInvert", "not_": "Un OpNot",
+               "neg": "Un OpNeg", "pos": "Un OpPos"}
+    fdefs = {n.name: n for n in tree.body if isinstance(n, ast.FunctionDef)}
+    if len(fdefs) != sum(1 for n in tree.body if isinstance(n, ast.FunctionDef)):
+        hard("a function is defined twice at module level")
+    operator_is_std = (any(isinstance(n, ast.Import) and any(a.name == "operator" and a.asname is None for a in n.names) for n in tree.body)
+                       and "operator" not in assigns and "operator" not in fdefs)
     for k, v in zip(om.keys, om.values):
-        if not (isinstance(k, ast.Constant) and isinstance(k.value, str) and isinstance(v, ast.Lambda)):
+        if not (isinstance(k, ast.Constant) and isinstance(k.value, str)):
+            hard("OPERATOR_MAP entry shape")
+        if isinstance(v, ast.Attribute) and isinstance(v.value, ast.Name) and v.value.id == "operator" and operator_is_std and v.attr in std_ops:
+            ops.append((k.value, std_ops[v.attr]))
+            continue
+        if isinstance(v, ast.Name) and v.id in fdefs and v.id not in assigns:
+            # a module-level  def f(x, y): return <expr>  is read like the lambda  lambda x, y: <expr>
+            fd = fdefs[v.id]
+            body = [st for st in fd.body if not (isinstance(st, ast.Expr) and isinstance(st.value, ast.Constant) and isinstance(st.value.value, str))]
+            if not (len(body) == 1 and isinstance(body[0], ast.Return) and body[0].value is not None and not fd.decorator_list
+                    and not fd.args.vararg and not fd.args.kwarg and not fd.args.kwonlyargs and not fd.args.defaults):
+                hard("OPERATOR_MAP[%s]: function %s is not a single return" % (k.value, v.id))
+            v = ast.Lambda(args=fd.args, body=body[0].value)
+        if not isinstance(v, ast.Lambda):
             hard("OPERATOR_MAP entry shape")
         ps = [a.arg for a in v.args.args]
         b = v.body
